@@ -872,7 +872,7 @@ pub fn run_c11(ctx: &mut Ctx, scn: &NetScn, seed: u64) {
                     continue;
                 }
             };
-            per_key[k].push((LOp { inv, ret, kind, who: format!("c{}#{} {} -> {}", c.idx, i, short_req(&scn.keys, &rec.req), resp::show(reply)) }, None));
+            per_key[k].push((LOp { inv, ret, kind, who: format!("c{}#{} {} -> {}", c.idx, i, short_req(&scn.keys, &rec.req), resp::show(reply)), proc_seq: Some((c.idx as u32, i as u32)) }, None));
         }
         if !c.extra_replies.is_empty() {
             ctx.viol("extra-reply", format!("client {} received more replies than requests", c.idx), "");
@@ -885,7 +885,7 @@ pub fn run_c11(ctx: &mut Ctx, scn: &NetScn, seed: u64) {
                 let v = m.get(key.as_bytes());
                 let s = run.srv.sh.stamp();
                 let kind = lin::Kind::Read(v.map(|v| id_of(v, &mut ids)));
-                per_key[k].push((LOp { inv: s, ret: run.srv.sh.stamp(), kind, who: format!("final read -> {}", store::hexo(&v.cloned())) }, None));
+                per_key[k].push((LOp { inv: s, ret: run.srv.sh.stamp(), kind, who: format!("final read -> {}", store::hexo(&v.cloned())), proc_seq: None }, None));
             }
         }
     }
